@@ -103,6 +103,8 @@ class WRun:
         else:
             self._cut_ascii()
         for e in self.problems:
+            if is_bad(e.value):
+                continue          # the statement provably raises (recorded in W.crashes): a violation, not a hole in the trace
             # a write whose value the evaluator could not build is missing from the records below
             W.gap(e.node, f"a write of {WRITERS[(enc, layout)]} is dropped from the trace: {repr(e.value)[:120]}", e.qual)
         # dense layouts: the array whose rows are written and the atom standing for its first row
@@ -285,6 +287,7 @@ class Lab:
     def __init__(self, ctx):
         self.ctx = ctx
         self.state, self.init_fn = S.init_state(ctx)
+        self.init_W = getattr(ctx, "_c04_init_world", None)
         self._rstate = None
         self._w, self._l = {}, {}
         self._cb = None
@@ -419,6 +422,7 @@ class Lab:
 
 def lab(ctx):
     """the runs of one checker invocation (kept on the context: the rules share them)"""
+    ctx = getattr(ctx, "_base", ctx)          # the rules see a proxy of the context (c04.Scoped): the runs live on the context itself
     got = getattr(ctx, "_c04_lab", None)
     if got is None:
         got = ctx._c04_lab = Lab(ctx)
